@@ -578,7 +578,7 @@ Section Session.
     /\ file_snapshot s = last_saved (ss_file s).
 
   Lemma sinv_init : forall st t0, sinv [] (init_sstate st t0).
-  Proof. intros. unfold sinv. simpl. repeat split; auto; intros k r []. Qed.
+  Proof. intros. unfold sinv. simpl. split; [reflexivity|split; [reflexivity|split; [intros k r []|reflexivity]]]. Qed.
 
   Lemma last_saved_app : forall f x, match rev (fs_saves f ++ [x]) with (_, r) :: _ => Some r | [] => None end = Some (snd x).
   Proof. intros. rewrite rev_unit. destruct x. reflexivity. Qed.
@@ -722,3 +722,299 @@ Theorem strategy_refresh : forall s e c s', handle_event TS.T s (e, c) = Ok s' -
   /\ (trig = false -> ss_file s' = ss_file s).
 Proof. intros s e c s' H. destruct (refreshed_iff _ _ _ _ _ H) as (_ & A & B). split; assumption. Qed.
 
+
+(* ====================================================================================================================== *)
+(* 5. crashes: the atomic save sequence never exposes anything but a complete earlier snapshot                              *)
+(* ====================================================================================================================== *)
+Lemma lookup_remove_same : forall p f, lookup p (remove p f) = None.
+Proof. induction f as [|[q c] r IH]; simpl; auto. destruct (Nat.eqb q p) eqn:E; simpl; auto. rewrite E. auto. Qed.
+
+Lemma lookup_remove_other : forall p q f, p <> q -> lookup q (remove p f) = lookup q f.
+Proof.
+  induction f as [|[x c] r IH]; simpl; intros; auto. destruct (Nat.eqb x p) eqn:E.
+  - apply Nat.eqb_eq in E. subst x. destruct (Nat.eqb p q) eqn:E2; auto. apply Nat.eqb_eq in E2. congruence.
+  - simpl. destruct (Nat.eqb x q); auto.
+Qed.
+
+Lemma lookup_set_same : forall p c f, lookup p (set p c f) = Some c.
+Proof. intros. unfold set. simpl. rewrite Nat.eqb_refl. reflexivity. Qed.
+
+Lemma lookup_set_other : forall p q c f, p <> q -> lookup q (set p c f) = lookup q f.
+Proof.
+  intros. unfold set. simpl. destruct (Nat.eqb p q) eqn:E.
+  - apply Nat.eqb_eq in E. congruence.
+  - apply lookup_remove_other. assumption.
+Qed.
+
+Lemma exec_app : forall a b f, exec (a ++ b) f = exec b (exec a f).
+Proof. intros. unfold exec. apply fold_left_app. Qed.
+
+(* operations that only touch the path p *)
+Definition only_on (p : fpath) (o : op) : Prop :=
+  match o with
+  | OpenTrunc q | Write q _ | Flush q | Fsync q | Close q | Unlink q => q = p
+  | Rename _ _ => False
+  end.
+
+Lemma exec_only_on : forall p q ops f, p <> q -> Forall (only_on p) ops -> lookup q (exec ops f) = lookup q f.
+Proof.
+  intros p q ops. induction ops as [|o r IH]; intros f Hn Ha; simpl; auto.
+  inversion Ha as [|? ? Ho Hr]; subst. unfold exec in *. cbn [fold_left]. rewrite IH; auto.
+  destruct o; cbn [only_on exec_op] in *; subst; auto using lookup_set_other, lookup_remove_other.
+  - destruct (lookup p f); auto using lookup_set_other.
+  - contradiction.
+Qed.
+
+Lemma exec_writes : forall p chunks f c, lookup p f = Some c ->
+  lookup p (exec (map (Write p) chunks) f) = Some (c ++ concat chunks).
+Proof.
+  intros p. induction chunks as [|d r IH]; intros f c H; simpl.
+  - rewrite app_nil_r. assumption.
+  - unfold exec in *. simpl. rewrite H. rewrite (IH _ (c ++ d)).
+    + rewrite app_assoc. reflexivity.
+    + apply lookup_set_same.
+Qed.
+
+Definition atomic_body (tmp : fpath) (chunks : list data) : list op :=
+  OpenTrunc tmp :: map (Write tmp) chunks ++ [Flush tmp; Fsync tmp; Close tmp].
+
+Lemma save_atomic_split : forall tmp final chunks, save_atomic tmp final chunks = atomic_body tmp chunks ++ [Rename tmp final].
+Proof. intros. unfold save_atomic, atomic_body. simpl. rewrite <- app_assoc. reflexivity. Qed.
+
+Lemma atomic_body_only : forall tmp chunks, Forall (only_on tmp) (atomic_body tmp chunks).
+Proof.
+  intros. unfold atomic_body. constructor; [reflexivity|]. apply Forall_app. split.
+  - apply Forall_forall. intros o Ho. apply in_map_iff in Ho. destruct Ho as (d & E & _). subst. reflexivity.
+  - repeat constructor.
+Qed.
+
+Lemma Forall_firstn : forall A (P : A -> Prop) k l, Forall P l -> Forall P (firstn k l).
+Proof. induction k; intros [|x r] H; simpl; auto. inversion H; subst. constructor; auto. Qed.
+
+(* a crash strictly inside a save leaves the report file untouched *)
+Lemma crash_inside_atomic : forall tmp final chunks k f, tmp <> final -> k < length (save_atomic tmp final chunks) ->
+  lookup final (exec (firstn k (save_atomic tmp final chunks)) f) = lookup final f.
+Proof.
+  intros tmp final chunks k f Hn Hk. rewrite save_atomic_split in *. rewrite app_length in Hk.
+  change (length [Rename tmp final]) with 1 in Hk.
+  rewrite firstn_app. replace (k - length (atomic_body tmp chunks)) with 0 by lia. cbn [firstn]. rewrite app_nil_r.
+  apply (exec_only_on tmp); auto. apply Forall_firstn. apply atomic_body_only.
+Qed.
+
+(* a completed save leaves the complete image *)
+Lemma atomic_complete : forall tmp final chunks f, tmp <> final ->
+  lookup final (exec (save_atomic tmp final chunks) f) = Some (concat chunks).
+Proof.
+  intros tmp final chunks f Hn. rewrite save_atomic_split, exec_app.
+  assert (Ht : lookup tmp (exec (atomic_body tmp chunks) f) = Some (concat chunks)).
+  { unfold atomic_body. change (OpenTrunc tmp :: map (Write tmp) chunks ++ [Flush tmp; Fsync tmp; Close tmp])
+      with ([OpenTrunc tmp] ++ map (Write tmp) chunks ++ [Flush tmp; Fsync tmp; Close tmp]).
+    rewrite !exec_app. change (exec [Flush tmp; Fsync tmp; Close tmp]) with (fun g : fsys => g). cbv beta.
+    rewrite (exec_writes tmp chunks _ []); [reflexivity|]. unfold exec. simpl. apply lookup_set_same. }
+  unfold exec at 1. cbn [fold_left exec_op]. rewrite Ht. apply lookup_set_same.
+Qed.
+
+Section History.
+  Variable S : Type.
+  Variable ser : S -> list data.
+  Variables tmp final : fpath.
+  Hypothesis tmp_final : tmp <> final.
+  Let hops := history_ops (save_atomic tmp final) ser.
+
+  Lemma hops_cons : forall s r, hops (s :: r) = save_atomic tmp final (ser s) ++ hops r.
+  Proof. reflexivity. Qed.
+
+  (* the state found at crash point k of a whole run: the image of the last COMPLETED save (j saves are complete) *)
+  Theorem crash_atomic_latest : forall snaps f0 k,
+    exists j, j <= length snaps
+      /\ lookup final (exec (firstn k (hops snaps)) f0)
+         = match j with 0 => lookup final f0 | Datatypes.S i => option_map (image ser) (nth_error snaps i) end
+      /\ length (hops (firstn j snaps)) <= k
+      /\ (k < length (hops (firstn (Datatypes.S j) snaps)) \/ j = length snaps).
+  Proof.
+    induction snaps as [|s r IH]; intros f0 k.
+    - exists 0. simpl. rewrite firstn_nil. simpl. repeat split; auto with arith.
+    - rewrite hops_cons. set (ops := save_atomic tmp final (ser s)).
+      destruct (Nat.lt_ge_cases k (length ops)) as [Hk|Hk].
+      + exists 0. rewrite firstn_app. replace (k - length ops) with 0 by lia. simpl firstn at 2. rewrite app_nil_r.
+        split; [simpl; lia|]. split; [apply crash_inside_atomic; auto|]. split; [simpl; lia|].
+        left. cbn [firstn]. rewrite hops_cons. simpl. rewrite app_nil_r. exact Hk.
+      + rewrite firstn_app. rewrite firstn_all2 by exact Hk. rewrite exec_app.
+        destruct (IH (exec ops f0) (k - length ops)) as (j & Hj & Hl & Hc & Hn).
+        exists (Datatypes.S j). split; [simpl; lia|]. split.
+        * rewrite Hl. destruct j; [|reflexivity]. cbn [nth_error option_map]. unfold ops. rewrite atomic_complete; auto.
+        * cbn [firstn]. rewrite hops_cons, app_length. fold ops. split; [lia|].
+          destruct Hn as [Hn|Hn]; [left|right; simpl; lia].
+          destruct r as [|s2 r2]; [simpl in Hn; lia|]. cbn [firstn] in *. rewrite !hops_cons, !app_length in *. fold ops. lia.
+  Qed.
+
+  (* C10_loadable_at_every_crash_point, file-system part: at every crash point the report file is what it was before the run
+     (absent, for a fresh report directory) or the complete image of one of the saved snapshots *)
+  Theorem crash_atomic_safe : forall snaps f0 k,
+    lookup final (exec (firstn k (hops snaps)) f0) = lookup final f0
+    \/ exists s, In s snaps /\ lookup final (exec (firstn k (hops snaps)) f0) = Some (image ser s).
+  Proof.
+    intros snaps f0 k. destruct (crash_atomic_latest snaps f0 k) as (j & Hj & Hl & _). destruct j as [|i]; auto.
+    right. destruct (nth_error snaps i) as [s|] eqn:E.
+    - exists s. split; [eapply nth_error_In; eauto | exact Hl].
+    - apply nth_error_None in E. lia.
+  Qed.
+End History.
+
+(* the pinned (in-place) sequence: right after the truncating open the report file is empty, whatever it held before *)
+Theorem inplace_truncates : forall final chunks f0, lookup final (exec (firstn 1 (save_inplace final chunks)) f0) = Some [].
+Proof. intros. simpl. unfold exec. simpl. apply lookup_set_same. Qed.
+
+Theorem inplace_not_safe :
+  exists (ser : unit -> list data) (snaps : list unit) (final : fpath) (f0 : fsys) (k : nat),
+    let st := exec (firstn k (history_ops (save_inplace final) ser snaps)) f0 in
+    lookup final f0 = None /\
+    ~ (lookup final st = lookup final f0 \/ exists s, In s snaps /\ lookup final st = Some (image ser s)).
+Proof.
+  exists (fun _ => [[1]]), [tt], 0, [], 1. cbv zeta. split; [reflexivity|].
+  vm_compute. intros [H|(s & _ & H)]; discriminate.
+Qed.
+
+(* ====================================================================================================================== *)
+(* 6. statements of Props/C10.v                                                                                             *)
+(* ====================================================================================================================== *)
+Definition refreshed (s' : sstate) : Prop := file_snapshot s' = Some (normalize (ss_writer s')).
+
+Lemma strategy_case : forall s e c s' (b : bool), handle_event TS.T s (e, c) = Ok s' ->
+  (is_session_end e ||
+   match fs_strategy (ss_file s) with
+   | None => false
+   | Some (SFun FSuite) => is_suite_end e
+   | Some (SFun FTest) => is_result_end e
+   | Some (SFun FFailedTest) =>
+       match result_end_loc e with Some loc => status_failed (get_result loc (ss_writer s')) | None => false end
+   | Some (SFun FLog) => is_log_like e
+   | Some (SInterval n) =>
+       (is_result_end e || is_suite_end e || is_log_like e) && Z.ltb (fs_last (ss_file s) + n * 1000) (c_call c)
+   end) = b ->
+  if b then refreshed s' /\ fs_last (ss_file s') = c_saved c else ss_file s' = ss_file s.
+Proof.
+  intros s e c s' b H Hb. rewrite <- triggers_T in Hb. destruct (strategy_refresh _ _ _ _ H) as [A B].
+  destruct b; auto.
+Qed.
+
+Theorem final_save : forall s t c s', handle_event TS.T s (ESessionEnd t, c) = Ok s' -> refreshed s'.
+Proof. intros s t c s' H. apply (strategy_case _ _ _ _ true H). reflexivity. Qed.
+
+Theorem strategy_at_end_of_tests : forall s e c s', handle_event TS.T s (e, c) = Ok s' -> fs_strategy (ss_file s) = None ->
+  if is_session_end e then refreshed s' else ss_file s' = ss_file s.
+Proof.
+  intros s e c s' H Hs. pose proof (strategy_case _ _ _ _ (is_session_end e) H) as P. rewrite Hs in P.
+  rewrite orb_false_r in P. specialize (P eq_refl). destruct (is_session_end e); tauto.
+Qed.
+
+Theorem strategy_at_each_suite : forall s e c s', handle_event TS.T s (e, c) = Ok s' ->
+  fs_strategy (ss_file s) = Some (SFun FSuite) ->
+  if is_suite_end e || is_session_end e then refreshed s' else ss_file s' = ss_file s.
+Proof.
+  intros s e c s' H Hs. pose proof (strategy_case _ _ _ _ (is_suite_end e || is_session_end e) H) as P. rewrite Hs in P.
+  rewrite orb_comm in P. specialize (P eq_refl). destruct (is_suite_end e || is_session_end e); tauto.
+Qed.
+
+Theorem strategy_at_each_test : forall s e c s', handle_event TS.T s (e, c) = Ok s' ->
+  fs_strategy (ss_file s) = Some (SFun FTest) ->
+  if is_result_end e || is_session_end e then refreshed s' else ss_file s' = ss_file s.
+Proof.
+  intros s e c s' H Hs. pose proof (strategy_case _ _ _ _ (is_result_end e || is_session_end e) H) as P. rewrite Hs in P.
+  rewrite orb_comm in P. specialize (P eq_refl). destruct (is_result_end e || is_session_end e); tauto.
+Qed.
+
+Theorem strategy_at_each_failed_test : forall s e c s', handle_event TS.T s (e, c) = Ok s' ->
+  fs_strategy (ss_file s) = Some (SFun FFailedTest) ->
+  if match result_end_loc e with Some loc => status_failed (get_result loc (ss_writer s')) | None => false end || is_session_end e
+  then refreshed s' else ss_file s' = ss_file s.
+Proof.
+  intros s e c s' H Hs.
+  pose proof (strategy_case _ _ _ _
+    (match result_end_loc e with Some loc => status_failed (get_result loc (ss_writer s')) | None => false end || is_session_end e) H) as P.
+  rewrite Hs in P. rewrite orb_comm in P. specialize (P eq_refl).
+  destruct (match result_end_loc e with Some loc => status_failed (get_result loc (ss_writer s')) | None => false end || is_session_end e); tauto.
+Qed.
+
+Theorem strategy_at_each_log : forall s e c s', handle_event TS.T s (e, c) = Ok s' ->
+  fs_strategy (ss_file s) = Some (SFun FLog) ->
+  if is_log_like e || is_session_end e then refreshed s' else ss_file s' = ss_file s.
+Proof.
+  intros s e c s' H Hs. pose proof (strategy_case _ _ _ _ (is_log_like e || is_session_end e) H) as P. rewrite Hs in P.
+  rewrite orb_comm in P. specialize (P eq_refl). destruct (is_log_like e || is_session_end e); tauto.
+Qed.
+
+(* every_Ns: the clock is consulted on the events the session is subscribed to; after a save last_saved_time is the clock *)
+Theorem strategy_every_N_seconds : forall s e c s' n, handle_event TS.T s (e, c) = Ok s' ->
+  fs_strategy (ss_file s) = Some (SInterval n) ->
+  if ((is_result_end e || is_suite_end e || is_log_like e) && Z.ltb (fs_last (ss_file s) + n * 1000) (c_call c)) || is_session_end e
+  then refreshed s' /\ fs_last (ss_file s') = c_saved c else ss_file s' = ss_file s.
+Proof.
+  intros s e c s' n H Hs.
+  pose proof (strategy_case _ _ _ _
+    (((is_result_end e || is_suite_end e || is_log_like e) && Z.ltb (fs_last (ss_file s) + n * 1000) (c_call c)) || is_session_end e) H) as P.
+  rewrite Hs in P. rewrite orb_comm in P. specialize (P eq_refl). exact P.
+Qed.
+
+Definition str_of (l : list N) : str := l.
+Theorem strategy_names :
+  let mk := make_strategy TS.T in
+  mk [97;116;95;101;110;100;95;111;102;95;116;101;115;116;115]%N = Ok None                                  (* at_end_of_tests *)
+  /\ mk [97;116;95;101;97;99;104;95;115;117;105;116;101]%N = Ok (Some (SFun FSuite))                          (* at_each_suite *)
+  /\ mk [97;116;95;101;97;99;104;95;116;101;115;116]%N = Ok (Some (SFun FTest))                               (* at_each_test *)
+  /\ mk [97;116;95;101;97;99;104;95;102;97;105;108;101;100;95;116;101;115;116]%N = Ok (Some (SFun FFailedTest)) (* at_each_failed_test *)
+  /\ mk [97;116;95;101;97;99;104;95;108;111;103]%N = Ok (Some (SFun FLog))                                    (* at_each_log *)
+  /\ mk [97;116;95;101;97;99;104;95;101;118;101;110;116]%N = Ok (Some (SFun FLog))                            (* at_each_event *)
+  /\ mk [101;118;101;114;121;95;49;53;115]%N = Ok (Some (SInterval 15))                                       (* every_15s *)
+  /\ mk [101;118;101;114;121;32;50;115]%N = Ok (Some (SInterval 2))                                           (* "every 2s" *)
+  /\ mk [101;118;101;114;121;95;115]%N = Err ValueError                                                       (* every_s *)
+  /\ mk (t_default TS.T) = Ok (Some (SFun FFailedTest)).                                                      (* the default *)
+Proof. vm_compute. repeat split. Qed.
+
+(* the subscription order is what makes the snapshot include the event that triggered it *)
+Definition clk0 := mkClock 0 0.
+Theorem wrong_listener_order :
+  exists s s', run_with TS.T [LFile; LWriter] (init_sstate (Some (SFun FTest)) 0) (map (fun e => (e, clk0)) mono_events) = Ok s
+            /\ run TS.T (init_sstate (Some (SFun FTest)) 0) (map (fun e => (e, clk0)) mono_events) = Ok s'
+            /\ ss_writer s = ss_writer s' /\ refreshed s' /\ ~ refreshed s.
+Proof.
+  destruct (run_with TS.T [LFile; LWriter] (init_sstate (Some (SFun FTest)) 0) (map (fun e => (e, clk0)) mono_events)) as [s|] eqn:E1;
+    [|vm_compute in E1; discriminate].
+  destruct (run TS.T (init_sstate (Some (SFun FTest)) 0) (map (fun e => (e, clk0)) mono_events)) as [s'|] eqn:E2;
+    [|vm_compute in E2; discriminate].
+  exists s, s'. vm_compute in E1. vm_compute in E2. inversion E1; subst. inversion E2; subst.
+  repeat split; try reflexivity. unfold refreshed. vm_compute. intros H. discriminate.
+Qed.
+
+(* end to end: for every event history, every save in it and every crash point of the whole sequence of file-system
+   operations, the report file is absent or is the complete image of a snapshot taken after a whole number of events, which
+   is a prefix (le_report) of the final report *)
+Theorem loadable_at_every_crash_point :
+  forall (st : option strat) (t0 : Z) (l : list (event * clock)) (s : sstate),
+    run TS.T (init_sstate st t0) l = Ok s ->
+    forall (save : fpath -> fpath -> list data -> list op),
+      In save [TS.save_ops_json; TS.save_ops_xml; TS.save_ops_junit] ->
+    forall (ser : report -> list data) (tmp final : fpath) (f0 : fsys) (k : nat),
+      tmp <> final -> lookup final f0 = None ->
+      let snaps := map snd (fs_saves (ss_file s)) in
+      let found := lookup final (exec (firstn k (history_ops (save tmp final) ser snaps)) f0) in
+      found = None
+      \/ exists j r wj, In (j, r) (fs_saves (ss_file s)) /\ found = Some (image ser r)
+                        /\ 1 <= j <= length l /\ apply_all init_wstate (firstn j (map fst l)) = Ok wj /\ r = normalize wj
+                        /\ (all_admissible init_wstate (map fst l) = true -> le_report r (normalize (ss_writer s)))
+                        /\ (forall load : data -> option report, (forall x, load (image ser x) = Some x) ->
+                            exists c, found = Some c /\ load c = Some r).
+Proof.
+  intros st t0 l s Hrun save Hsave ser tmp final f0 k Hn H0 snaps found.
+  assert (Es : history_ops (save tmp final) ser snaps = history_ops (save_atomic tmp final) ser snaps).
+  { destruct Hsave as [E|[E|[E|[]]]]; subst save; reflexivity. }
+  unfold found. rewrite Es.
+  destruct (crash_atomic_safe _ ser tmp final Hn snaps f0 k) as [E|(r & Hin & E)].
+  - left. rewrite E. assumption.
+  - right. unfold snaps in Hin. apply in_map_iff in Hin. destruct Hin as ([j r'] & Er & Hin). simpl in Er. subst r'.
+    destruct (snapshot_consistent _ _ _ _ _ Hrun) as (Hs & _ & Hfin).
+    destruct (Hs _ _ Hin) as (Hj & wj & Hwj & Erj).
+    exists j, r, wj. split; [exact Hin|]. split; [exact E|]. split; [exact Hj|]. split; [exact Hwj|]. split; [exact Erj|]. split.
+    + intros Ha. subst r. eapply every_snapshot_prefix_of_final; eauto.
+    + intros load Hl. exists (image ser r). split; auto.
+Qed.
